@@ -170,6 +170,7 @@ class Table:
     compare_summary = True
     compare_return = True
     summary_wrap = False
+    sentence_stripped_on_parse = False  # the parser of this kind never leaves "Defaults to X" in the prose it returns
 
     def accept_default(self, name, p, pf):
         """List of acceptable canonical defaults for expected param dict `p`."""
@@ -324,6 +325,10 @@ def _compare_entry(base, n, ep, op, pf, table, all_tags, is_return):
         ok, tag = prose_equal(cand_prose if cand_prose else None, odoc_prose, wrap=table.wrap)
         if ok:
             break
+    if ok and table.sentence_stripped_on_parse and _ann is not None and split_default_sentence(ep.get("doc"))[1] is None:
+        # this kind's parser hands the default over as a value and removes its sentence from the prose
+        out.append(_mk(base, pf, field="doc", tag="default_sentence_left_in_prose", param=n,
+                       expected=_short(ep.get("doc")), observed=_short(odoc)))
     if not ok:
         # tag movement is the strongest evidence: say so explicitly
         mine = tags_in(ep.get("doc"))
